@@ -46,6 +46,7 @@ package proposal
 //@   ensures {C01,C05} validated-only-after-accept: validateState(proposal) == configapi.ProposalValidatePhase_VALIDATED && old(validateState(proposal)) == configapi.ProposalValidatePhase_VALIDATING ==> lastGetPluginOK && validateCalls == old(validateCalls) + 1 && lastValidateAccepted
 //@   ensures {C05} rejected-or-no-plugin-fails: old(validateState(proposal)) == configapi.ProposalValidatePhase_VALIDATING && ((validateCalls > old(validateCalls) && !lastValidateAccepted) || (readCfgOK && (proposal.Status.PrevIndex == 0 || readCfgCommitted == proposal.Status.PrevIndex) && !lastGetPluginOK)) ==> validateState(proposal) == configapi.ProposalValidatePhase_FAILED && proposal.Status.Phases.Validate.Failure != nil && proposal.Status.Phases.Validate.Failure.Type == configapi.Failure_INVALID
 //@   ensures {C06} only-latest: old(validateState(proposal)) == configapi.ProposalValidatePhase_VALIDATING && isRollback(proposal) && readCfgOK && lastGetPluginOK && (proposal.Status.PrevIndex == 0 || readCfgCommitted == proposal.Status.PrevIndex) && readCfgIndex != rollbackTarget(proposal) ==> validateState(proposal) == configapi.ProposalValidatePhase_FAILED && proposal.Status.Phases.Validate.Failure != nil && proposal.Status.Phases.Validate.Failure.Type == configapi.Failure_FORBIDDEN && proposal.Status.RollbackValues == old(proposal.Status.RollbackValues) && proposal.Status.RollbackIndex == old(proposal.Status.RollbackIndex) && validateCalls == old(validateCalls)
+//@   ensures {C06} rollback-records-displaced-state: validateState(proposal) == configapi.ProposalValidatePhase_VALIDATED && old(validateState(proposal)) == configapi.ProposalValidatePhase_VALIDATING && isRollback(proposal) ==> proposal.Status.RollbackIndex == readRollbackIndex[propIDOf(proposal.TargetID, rollbackTarget(proposal))] && proposal.Status.RollbackValues == readRollbackValues[propIDOf(proposal.TargetID, rollbackTarget(proposal))]
 //@   ensures {C06} change-records-rollback-index: validateState(proposal) == configapi.ProposalValidatePhase_VALIDATED && old(validateState(proposal)) == configapi.ProposalValidatePhase_VALIDATING && isChange(proposal) ==> proposal.Status.RollbackIndex == readCfgIndex && proposal.Status.RollbackValues != nil
 
 //@ spec pvDeleted(ref int) bool = asPtr(ref, "*configapi.PathValue").Deleted
